@@ -1,7 +1,8 @@
 // C23: chunked transfer coding (bfe_http/chunked.go) vs model Chunked.v.
-//   [1 wire [rd sizes] [piece sizes]] -> [data errcode consumed]   decode: newChunkedReader over a bfe_bufio.Reader
+//   [1 wire [rd sizes] [piece sizes]] -> [data errcode consumed errcode2]   decode: newChunkedReader over a bfe_bufio.Reader
 //        whose source hands out the wire in the given piece sizes (cycled); Read buffers of the given sizes (cycled)
-//        until an error; consumed = wire bytes taken by the decoder, reported only on a clean end (errcode 1), else 0
+//        until an error; consumed = wire bytes taken by the decoder, reported only on a clean end (errcode 1), else 0;
+//        errcode2 = what two further Reads return (the error is sticky; 100+n if they return data)
 //   [2 [chunk ...]]                        -> wire                  encode: chunkedWriter.Write per chunk, then Close
 //   [3 line]                               -> [n] | [-1 code]       parseHexUint
 package main
@@ -109,11 +110,23 @@ func impl(in hv.Val) hv.Val {
 			}
 		}
 		code := errCode(err)
+		// errors are sticky: two more Reads must return (0, the same error)
+		code2 := code
+		if err != nil {
+			for k := 0; k < 2; k++ {
+				n2, err2 := cr.Read(make([]byte, 3))
+				if n2 != 0 {
+					code2 = 100 + n2
+				} else if errCode(err2) != code {
+					code2 = errCode(err2)
+				}
+			}
+		}
 		consumed := 0
 		if code == 1 {
 			consumed = len(wire) - len(src.data) - br.Buffered()
 		}
-		return hv.L{hv.B(data), hv.I(code), hv.I(consumed)}
+		return hv.L{hv.B(data), hv.I(code), hv.I(consumed), hv.I(code2)}
 	case 2:
 		var w bytes.Buffer
 		cw := bfe_http.VerifNewChunkedWriter(&w)
